@@ -79,13 +79,15 @@ TABLES = {
     "T0": [["a", "int", []], ["b", "str", []], ["c", "float", []]],
     # keys b and c are absent from the FIRST record when written ragged (a reader must not learn the key set from record 0)
     "T3f": [["a", "int", [1, 2, 3]], ["b", "str", [None, "y", "z"]], ["c", "float", [None, 2.5, None]]],
-    "T4": [["a", "int", [1, 2, 3]], ["b", "str", ["x", None, "z"]], ["d", "str", ["7", "8", "9"]], ["e", "bool", [True, False, True]]],
+    # a date column in the quick tier too (casts between datetime units), and falsy values 0 / false that a cast must not skip
+    "T7": [["t", "date", ["2020-02-29", "1970-01-01"]], ["n", "int", [0, 5]], ["e", "bool", [False, True]]],
+    "T4": [["a", "int", [0, 2, 3]], ["b", "str", ["x", None, "z"]], ["d", "str", ["7", "8", "9"]], ["e", "bool", [True, False, True]]],
     # JSON only: values that are objects / lists of objects whose own members are named like top-level keys
     "T6": [["id", "int", [7, 8]], ["host", "obj", [{"id": 1, "name": "h"}, {"name": "g", "tags": [{"id": 3, "x": 1}]}]], ["name", "str", ["p", "q"]]],
     "T5": [["a", "int", [1, 2]], ["b", "str", ["x", "y"]], ["c", "float", [1.5, None]],
            ["t", "date", ["2020-02-29", "1970-01-01"]], ["e", "bool", [True, None]]],
 }
-TABLE_ORDER = {"quick": ["T1", "T2", "T0", "T3", "T3f", "T3r", "T4"], "thorough": ["T1", "T2", "T0", "T3", "T3f", "T3r", "T4", "T5"]}
+TABLE_ORDER = {"quick": ["T1", "T2", "T0", "T3", "T3f", "T3r", "T7", "T4"], "thorough": ["T1", "T2", "T0", "T3", "T3f", "T3r", "T7", "T4", "T5"]}
 
 
 def files_for(fmt, tier):
